@@ -115,26 +115,48 @@ def evIf (st : St) (n : Node) : EvRes × St :=
       (.repl { newNodes := g.nodes, newOuts := g.outputs, inits := g.inits, inlinedIf := true },
        st.note (if b then "if:then" else "if:else"))
 
-/-- `registry.lookup_evaluators(domain, op, version)` — registration is for domain `""`. -/
+/-- `_use_tensor_valued_constants` (commit 3291a6e): `value_int` / `value_ints` of Constant exist from opset 12 on; below,
+the new Constant nodes carry the same integers under `value` (a tensor-valued attribute with that payload). -/
+def downgradeConst (n : Node) : Node :=
+  if n.op == "Constant" && n.isOnnxDomain then
+    .mk n.op n.domain n.inputs n.outputs
+      (n.attrs.map fun (k, a) =>
+        match a with
+        | .int i => if k == "value_int" || k == "value" then ("value", Attr.int i) else (k, a)
+        | .ints l => if k == "value_ints" || k == "value" then ("value", Attr.ints l) else (k, a)
+        | _ => (k, a)) n.subs
+  else n
+
+/-- an evaluator as `process_node` sees it at opset `version`: below 12 its new Constant nodes are tensor-valued -/
+def atVersion (version : Nat) (f : St → Node → EvRes × St) (st : St) (n : Node) : EvRes × St :=
+  let r := f st n
+  if version < 12 then
+    (match r.1 with
+      | .repl rp => .repl { rp with newNodes := rp.newNodes.map downgradeConst }
+      | e => e, r.2)
+  else r
+
+/-- `registry.lookup_evaluators(domain, op, version)` — registration is for domain `""`.  The evaluators that create
+integer constants are wrapped with `atVersion`. -/
 def lookupEvaluator (n : Node) (version : Nat) : Option (St → Node → EvRes × St) :=
   if n.domain != "" then none else
   match n.op with
   | "Add" => some evAdd
   | "Abs" => some evAbs
-  | "Gather" => some evGather
+  | "Gather" => some (atVersion version evGather)
   | "Reshape" => some evReshape
   | "Squeeze" => some propagateShapeValue
   | "Cast" => some evCast
   | "CastLike" => some evCastLike
-  | "Shape" => some evShape
-  | "Size" => some evSize
+  | "Shape" => some (atVersion version evShape)
+  | "Size" => some (atVersion version evSize)
   | "If" => some evIf
   | "Identity" => some evIdentity
   | "SequenceConstruct" => some evSequenceConstruct
   | "Concat" => some evConcat
   | "Dropout" => if version ≥ 12 then some evDropout else none
   | "Expand" => some evExpand
-  | "ConcatFromSequence" => some evConcatFromSequence
+  | "ConcatFromSequence" => some (atVersion version evConcatFromSequence)
   | "SplitToSequence" => if version ≥ 18 then some evSplitToSequence else none
   | "SequenceAt" => some evSequenceAt
   | _ => none
@@ -440,6 +462,24 @@ def initialState (g : Graph) (info : List (Name × VInfo)) : St :=
 def foldGraph (ctx : Ctx) (info : List (Name × VInfo)) (g : Graph) : St × Graph :=
   let (st, g') := visitGraph ctx maxDepth (initialState g info) g
   (st, pruneInits st.removed maxDepth g')
+
+/-- does any node (at any depth) read `x`? (`Value.uses()`) -/
+def readsName : Nat → Graph → Name → Bool
+  | 0, _, _ => false
+  | d + 1, g, x => g.nodes.any fun n => n.inputs.contains (some x) || n.subs.any fun (_, sg) => readsName d sg x
+
+/-- `visit_function`, after the node loop (commit 26dd9fc): a function body cannot hold initializers; whatever an inlined
+If branch brought along and is still read becomes a `Constant` node at the top of the body, under the same name. -/
+def initsToConstants (st : St) (g : Graph) : St × Graph :=
+  let live := g.inits.filter fun (x, _) => readsName maxDepth g x
+  if g.inits.isEmpty then (st, g) else
+  (if live.isEmpty then st else { st with modified := true },
+   Graph.mk g.inputs [] (live.map (fun (x, t) => mkNode "Constant" [] [x] [("value", .tensor t)]) ++ g.nodes) g.outputs)
+
+/-- `FoldConstantsPass.visit_function` on a function body (before `NameFixPass`) -/
+def foldFunction (ctx : Ctx) (info : List (Name × VInfo)) (g : Graph) : St × Graph :=
+  let (st, g') := foldGraph ctx info g
+  if st.err.isSome then (st, g') else initsToConstants st g'
 
 /-! ### node-level shape inference (`_do_inference`): which constants it may be given -/
 
